@@ -164,6 +164,9 @@ impl Shl<u32> for F64 {
     #[inline]
     #[allow(clippy::suspicious_arithmetic_impl)]
     fn shl(self, rhs: u32) -> F64 {
+        if self.0 == 0.0 {
+            return self; // `0 * 2^rhs` would be NaN once `2^rhs` is infinite
+        }
         F64(self.0 * (rhs as f64).exp2())
     }
 }
